@@ -43,6 +43,8 @@ def campaign(c):
         netscen.run_scenario(c, c.rng.fork('optgrid%d' % i), 'l4', ['opt-grid'], project)
     netscen.run_scenario(c, c.rng.fork('nonemit'), 'l4', ['non-emitting'], project)
     netscen.run_scenario(c, c.rng.fork('ports'), 'l4', ['port-classes'], project)
+    for i in range(2 if c.quick else 10):
+        netscen.run_scenario(c, c.rng.fork('pieces%d' % i), 'l4', ['pieces'], project)
     for i in range(3 if c.quick else 30):
         netscen.run_scenario(c, c.rng.fork('fanout%d' % i), 'l4', ['fan-out'], project)
     for i in range(2 if c.quick else 20):
